@@ -93,6 +93,7 @@ class OsuMapMeta(
 ):
     def _read_meta_string_list(self, lines: List[str]):
         """Reads everything Meta"""
+        background_read = False
         for e, line in enumerate(lines):
             if line == "":
                 continue
@@ -160,14 +161,14 @@ class OsuMapMeta(
             elif k == "SliderTickRate":
                 self.slider_tick_rate = float(v)
 
-            if k == "//Background and Video events":
-                line = lines[e + 1]
+            # The background is the event of type 0 at time 0, wherever it is in [Events]
+            if line.startswith("0,0,") and not background_read:
+                background_read = True
                 self.background_file_name = line[line.find('"') + 1 : line.rfind('"')]
 
-            if k == "//Storyboard Sound Samples":
-                self.samples = OsuSampleList.read(
-                    [line for line in lines[e + 1 :] if line.startswith("Sample")]
-                )
+        self.samples = OsuSampleList.read(
+            [line for line in lines if line.startswith("Sample,")]
+        )
 
     def write_meta_string_list(self) -> List[str]:
         """Writes everything Meta"""
